@@ -29,7 +29,9 @@ from harness.common import enc, dec
 RULE = ("chains of 1..5 templates; every level draws, per member name of a shared pool (ma..me plus, rarely, names "
         "that are also attributes of mako's Namespace objects), one of {def, named block, nothing}, named blocks "
         "nested in named/anonymous blocks or at body level, module attributes from {ax,ay,az}, a <%page args> "
-        "signature over {pa,pb}, bodies and member contents made of literal tags [tN] (N unique per chain), calls "
+        "signature over {pa,pb}, defs with 0-2 parameters (one signature per name along the chain, rarely deviating), module "
+        "attribute values that are numbers or None/''/False/0, bodies and member contents made of literal tags [tN] (N unique per chain), "
+        "calls with content (<%call>/<%self:..> to a def writing caller.body() once) holding tags, member calls and anonymous blocks, calls "
         "self/next/parent/local.X(), X.body(pos, kw), ${X.attr.a}, anonymous blocks; inherit written as a literal, "
         "as one of three expression forms, or as an expression evaluating to None; 5% of the references are "
         "deliberately invalid (next at T0, parent at the base, missing member, recursion); put_string lookups, "
@@ -41,10 +43,10 @@ RULE = ("chains of 1..5 templates; every level draws, per member name of a share
 ASSUMPTIONS = [
     "member names are not 'body', not reserved names, do not start with '__M_' and are not '_get_star' (callable without arguments)",
     "module attribute names do not collide with names every generated module defines (runtime, filters, cache, UNDEFINED, render_*, _exports ...)",
-    "defs take no arguments; only body() receives positional/keyword arguments; blocks receive keywords only through **pageargs",
+    "def parameters are plain names with optional integer defaults (no *args/**kw/keyword-only); blocks take no declared arguments",
     "render() data does not use the names self/next/parent/local",
     "RecursionError of CPython is compared with fuel exhaustion of the model (both only on non-terminating call patterns)",
-    "a <%call> tag is only compiled, never rendered (C05 covers calls with content)",
+    "a <%call> is always a call to a def consisting of ${caller.body()} (content written exactly once, in place); other callees are C05's",
 ]
 TRUSTED_EXTRA = [
     "C06: the template writer/line tracker and output tokeniser of harness/props/C06.py (block line numbers are cross-checked against the real lexer)",
@@ -59,6 +61,7 @@ ATTRS = ["ax", "ay", "az"]
 PARAMS = ["pa", "pb"]
 KWNAMES = ["pa", "pb", "pc", "pd"]
 FUEL = 3000
+ZCALL = '<%def name="zcall()">${caller.body()}</%def>'
 # module attribute values that are not numbers travel as reserved codes (the model's values are opaque numbers)
 VALCODE = {900001: "None", 900002: "''", 900003: "False"}
 PRINTED = {"None": 900001, "": 900002, "False": 900003}
@@ -123,20 +126,23 @@ def emit_nodes(nodes, w, sig, where):
         elif k == "g":
             if where == "body":
                 w.w("{g" + ",".join("%s=${%s}" % (p, p) for p, _ in sig) + ";${list(pageargs.items())}}")
+            elif where == "deftop":      # directly in a def: its own parameters, no pageargs
+                w.w("{g" + ",".join("%s=${%s}" % (p, p) for p, _ in sig) + ";[]}")
             else:
                 w.w("{g;${list(pageargs.items())}}")
         elif k == "d":
-            w.w('<%%def name="%s()">' % n["n"])
-            emit_nodes(n["kids"], w, sig, "def")
+            dsig = n.get("sig", [])
+            w.w('<%%def name="%s(%s)">' % (n["n"], ", ".join(p if d is None else "%s=%d" % (p, d) for p, d in dsig)))
+            emit_nodes(n["kids"], w, dsig, "deftop")
             w.w("</%def>")
         elif k == "b":
             n["line"] = w.line
             if n["n"] is None:
                 w.w("<%block>")
-                emit_nodes(n["kids"], w, sig, where)
+                emit_nodes(n["kids"], w, sig, "def" if where == "deftop" else where)
             else:
                 w.w('<%%block name="%s">' % n["n"])
-                emit_nodes(n["kids"], w, sig, "block" if where != "def" else "def")
+                emit_nodes(n["kids"], w, sig, "block" if where not in ("def", "deftop") else "def")
             w.w("</%block>")
         elif k == "x":
             if n.get("form"):
@@ -149,6 +155,10 @@ def emit_nodes(nodes, w, sig, where):
                 w.w("</%call>")
         else:
             raise ValueError(k)
+
+
+def has_calltag(nodes):
+    return any(n["k"] == "x" or ("kids" in n and has_calltag(n["kids"])) for n in nodes)
 
 
 def level_source(case, i):
@@ -179,6 +189,8 @@ def level_source(case, i):
     for a, v in lv["attrs"]:
         w.w("<%%! %s = %s %%>%s" % (a, val_literal(v), hnl))
     emit_nodes(lv["nodes"], w, lv["sig"], "body")
+    if has_calltag(lv["nodes"]):
+        w.w(ZCALL)             # the callee of every <%call>: writes the content once
     return w.text()
 
 
@@ -213,7 +225,7 @@ def enc_nodes(nodes, out):
         elif k == "g":
             out.append("g")
         elif k == "d":
-            out += ["d", enc(n["n"])]
+            out += ["d", enc(n["n"]), enc_sig(n.get("sig", []))]
             enc_nodes(n["kids"], out)
         elif k == "b":
             out += ["b", "~" if n["n"] is None else enc(n["n"]), str(n["line"])]
@@ -458,11 +470,11 @@ class Rules:
         for l in self.levels:
             d = {}
             for b in block_defs(l["nodes"], []):
-                d.setdefault(b["n"], ("block", b["kids"]))
+                d.setdefault(b["n"], ("block", b["kids"], []))
             for n_ in l["nodes"]:
                 if n_["k"] == "d":
-                    d[n_["n"]] = ("def", n_["kids"])     # the last definition of a name is the module's
-            d["body"] = ("body", l["nodes"])
+                    d[n_["n"]] = ("def", n_["kids"], n_.get("sig", []))     # the last definition of a name is the module's
+            d["body"] = ("body", l["nodes"], l["sig"])
             self.members.append(d)
 
     def from_(self, j, x):
@@ -489,10 +501,10 @@ class Rules:
         k = self.from_(j, x)
         if k is None:
             raise OErr("attribute")
-        kind, kids = self.members[k][x]
+        kind, kids, msig = self.members[k][x]
         params = [inspect.Parameter(p, inspect.Parameter.POSITIONAL_OR_KEYWORD,
                                     default=inspect.Parameter.empty if d is None else d)
-                  for p, d in (self.levels[k]["sig"] if kind == "body" else [])]
+                  for p, d in msig]
         if kind != "def":
             params.append(inspect.Parameter("pageargs", inspect.Parameter.VAR_KEYWORD))
         try:
@@ -500,7 +512,7 @@ class Rules:
         except TypeError:
             raise OErr("type")
         ba.apply_defaults()
-        bound = tuple((p, ba.arguments[p]) for p, _ in (self.levels[k]["sig"] if kind == "body" else []))
+        bound = tuple((p, ba.arguments[p]) for p, _ in msig)
         extra = tuple(ba.arguments.get("pageargs", {}).items()) if kind != "def" else None
         return self.run(k, kids, bound, extra, depth + 1)
 
@@ -519,8 +531,8 @@ class Rules:
                 out.append(("g", bound, tuple(extra or ())))
             elif k == "d":
                 pass
-            elif k == "x":
-                raise Discard()
+            elif k == "x":          # the callee writes caller.body() once: the content, in the caller's scope
+                out += self.run(i, n["kids"], bound, extra, depth + 1)
             elif k == "a":
                 j = self.ref(i, n["r"])
                 for q in range(j, self.m + 1):
@@ -594,6 +606,16 @@ class Gen:
                     d[x] = usual[x] if rng.random() < 0.9 else ("d" if usual[x] == "b" else "b")
             decl.append(d)
         self.pool, self.decl, self.nlev, self.wild = pool, decl, nlev, wild
+        # a def name has one signature along the chain (rarely a level deviates): none, or 1-2 parameters
+        self.defsig = {}
+        for x in pool:
+            sg = []
+            if usual[x] == "d" and rng.random() < 0.5:
+                for p_ in PARAMS[:rng.randint(1, 2)]:
+                    sg.append([p_, None if rng.random() < 0.4 else rng.randint(1, 9)])
+                if len(sg) == 2 and sg[0][1] is not None and sg[1][1] is None:
+                    sg[1][1] = rng.randint(1, 9)
+            self.defsig[x] = sg
         rank = {x: j + 1 for j, x in enumerate(pool)}
         levels = []
         for i in range(nlev):
@@ -627,7 +649,11 @@ class Gen:
                 body.append({"k": "g"})
             items = []
             for x in defs:
-                items.append(self.nl({"k": "d", "n": x, "kids": self.content(i, rank[x], 2, in_def=True)}))
+                dsig = copy.deepcopy(self.defsig[x]) if rng.random() < 0.92 else []
+                kids = self.content(i, rank[x], 2, in_def=True)
+                if dsig and rng.random() < 0.7:
+                    kids.insert(1, {"k": "g"})
+                items.append(self.nl({"k": "d", "n": x, "sig": dsig, "kids": kids}))
                 if rng.random() < 0.07:      # an earlier def of the same name (replaced by the later one)
                     items.insert(0, {"k": "d", "n": x, "kids": [self.t()]})
             # place blocks: at body level, or nested into an earlier placed block of lower rank / an anonymous block
@@ -736,8 +762,15 @@ class Gen:
                     out.append({"k": "a", "r": ref, "x": rng.choice(have)})
                 else:
                     out.append({"k": "a", "r": ref, "x": rng.choice(ATTRS + ["aq"])})
-            else:
+            elif rng.random() < 0.5:
                 out.append(self.anon([self.t()]))
+            else:
+                kids = [self.t()]
+                if rng.random() < 0.6:
+                    kids.append(self.member_call(i, rk))
+                if rng.random() < 0.3:
+                    kids.append(self.anon([self.t()]))
+                out.append(self.nl({"k": "x", "kids": kids, "form": rng.randint(0, 1)}))
         if not in_def and rng.random() < 0.15:
             out.append({"k": "g"})
         return out
@@ -768,7 +801,17 @@ class Gen:
             return self.t()
         x = rng.choice(cands) if rng.random() > (self.wild / 2) else "nosuch"
         n = {"k": "c", "r": ref, "x": x, "pos": [], "kw": []}
-        if rng.random() < 0.08 and (wild or all(self.decl[k].get(x) != "d" for k in range(self.nlev))):
+        sg = self.defsig.get(x, [])
+        if sg and not wild:
+            # arguments the def's signature accepts; keywords only when some level declares x as a block
+            mixed = any(self.decl[k].get(x) == "b" for k in range(self.nlev))
+            npos = 0 if mixed else rng.randint(0, len(sg))
+            n["pos"] = [rng.randint(50, 59) for _ in range(npos)]
+            for p_, d_ in sg[npos:]:
+                if d_ is None or rng.random() < 0.4:
+                    n["kw"].append([p_, rng.randint(60, 69)])
+            rng.shuffle(n["kw"])
+        elif rng.random() < 0.08 and (wild or all(self.decl[k].get(x) != "d" for k in range(self.nlev))):
             n["kw"] = [[rng.choice(KWNAMES), rng.randint(40, 49)]]
         if wild and rng.random() < 0.2:
             n["pos"] = [1]
@@ -859,7 +902,7 @@ class Gen:
 def tree_source(nodes):
     w = Writer()
     emit_nodes(nodes, w, [], "body")
-    return w.text() + '<%def name="zcall()">${caller.body()}</%def>'
+    return w.text() + ZCALL
 
 
 def impl_compile(nodes):
@@ -1003,6 +1046,8 @@ def strip_args(case):
         for n in nodes:
             if n["k"] == "c":
                 n["pos"], n["kw"] = [], []
+            if n["k"] == "d":
+                n["sig"] = []
             if "kids" in n:
                 go(n["kids"])
     for lv in case["levels"]:
@@ -1424,7 +1469,7 @@ def run(ctx):
             if r != want:
                 ctx.disagree("corr.nsattrs", a, r, want)
     try:
-        n = 1500 if ctx.quick else 22000
+        n = 1300 if ctx.quick else 20000
         guarded("nsattrs", nsattrs_table)
         cases = guarded("render.plain", lambda: corr_and_oracle_render(ctx, impl, gen, n, "plain"))
         guarded("render.hazard", lambda: corr_and_oracle_render(ctx, impl, gen, n // 6, "hazard", hazards=True))
